@@ -146,10 +146,21 @@ def run(ctx: Ctx, rs: RuleSet, tier: str):
   pattern = const_str(pat_expr.args[0])
   if pattern is None:
     raise AnalysisError('_PATH_PART pattern is not a constant expression')
-  parser_re = rl.from_pattern(pattern)
+  # a pattern outside the regular fragment (back-references, look-around)
+  # cannot be decided by automaton inclusion: the other rules still run, and
+  # the check then ends as analysis-broken unless one of them found a
+  # violation
+  undecidable = None
+  try:
+    parser_re = rl.from_pattern(pattern)
+  except ValueError as e:
+    parser_re = None
+    undecidable = AnalysisError(
+        f'_PATH_PART {pattern!r} is outside the regular fragment the '
+        f'inclusion test handles ({e})')
   alphabet = sorted(set(rl.DEFAULT_REPRESENTATIVES) |
                     rl.literals_in_pattern(pattern))
-  for cname in ('Index', 'Key', 'Attr'):
+  for cname in ('Index', 'Key', 'Attr') if parser_re is not None else ():
     tr, text, m = template_regex(ctx, cname)
     ok, witness = rl.included(tr, parser_re, alphabet)
     rs.check(ok, rule, f'{DAG}.{cname}.code',
@@ -693,6 +704,8 @@ def run(ctx: Ctx, rs: RuleSet, tier: str):
              'leaves are yielded with state.current_path; non-leaves recurse '
              'over every child (un-memoized: one line per path); keys are '
              '_path_str(path)', ctx.loc(f, f.node))
+  if undecidable is not None:
+    raise undecidable
 
 
 MANIFEST = dict(
